@@ -546,7 +546,7 @@ func main() {
 		outcome, status, detail := serve(h, 5*time.Second)
 		o := &Obs{Outcome: outcome, Status: status, Detail: detail}
 		leaked := true
-		for k := 0; k < 600; k++ {
+		for k := 0; k < 5000; k++ { // up to 5 s: machine load must not look like a goroutine left behind
 			if runtime.NumGoroutine() <= baseline {
 				leaked = false
 				break
